@@ -34,18 +34,18 @@ import (
 )
 
 type nodeStats struct {
-	Ops, Genuine, Mutated, Accepted, Rejected, Panics, Execs                                                                                            int
-	Duplicates                                                                                                                                          int
-	DuplicateHist                                                                                                                                       map[string]int
-	MutationHist                                                                                                                                        map[string]int
-	OutcomeHist                                                                                                                                         map[string]int
-	Monitors                                                                                                                                            []string
-	Samples                                                                                                                                             []string
-	Notes                                                                                                                                               []string
-	Scenarios                                                                                                                                           int
-	C08Compared, C08Resets, TwoRoundScenarios, C08InDealsWindow, ReinitProbes, Reinits                                                                  int
-	CancelledRounds                                                                                                                                     int
-	C08Late, C08StampsMoved, PrefilledResults, JSONVariants, KeylessReinits, ReinitVariants, ForgedOwnName, CollectedHere, C08RealLoop, ProposalsStored int
+	Ops, Genuine, Mutated, Accepted, Rejected, Panics, Execs                                                                                                              int
+	Duplicates                                                                                                                                                            int
+	DuplicateHist                                                                                                                                                         map[string]int
+	MutationHist                                                                                                                                                          map[string]int
+	OutcomeHist                                                                                                                                                           map[string]int
+	Monitors                                                                                                                                                              []string
+	Samples                                                                                                                                                               []string
+	Notes                                                                                                                                                                 []string
+	Scenarios                                                                                                                                                             int
+	C08Compared, C08Resets, TwoRoundScenarios, C08InDealsWindow, ReinitProbes, Reinits                                                                                    int
+	CancelledRounds                                                                                                                                                       int
+	C08Late, C08StampsMoved, PrefilledResults, JSONVariants, KeylessReinits, ReinitVariants, ForgedOwnName, CollectedHere, C08RealLoop, ProposalsStored, ReorderedReinits int
 }
 
 func tsTok(t time.Time) string {
@@ -1068,6 +1068,29 @@ func (r *nodeRun) scenario(outDir string, n, t int, twoRounds bool) {
 	from := len(c.boardMessages())
 	if _, err := c.proposeTasks(c.nodes[who], round, []requests.SigningTask{{MessageID: "after-reinit", File: "after reinit.bin", Payload: []byte("proposed after the reinitialisation")}}); err == nil {
 		for _, m := range c.boardMessages()[from:] {
+			// first the same proposal with a signature nobody made (in the name of a participant that may have NO key
+			// registered since the reinitialisation: nothing verifies under no key, so nothing in its name is acted on)
+			forged := m
+			forged.Signature = bytes.Repeat([]byte{0x5a}, ed25519.SignatureSize)
+			res := r.feedOp(c, obs, forged, "mut:forged-after-reinit", "trymsg")
+			r.st.Mutated++
+			if res.outcome == "ok" && res.before != res.after {
+				r.mon(fmt.Sprintf("C09 unsigned_noop: after the re-initialisation a %s in the name of %s with a signature nobody made was accepted and changed the node state", m.Event, m.SenderAddr))
+			}
+			// … and signed by each of the OTHER participants with their own (new) keys: a key speaks for the name it was
+			// registered under in the file, wherever that entry stood in the file's list
+			for j, other := range c.nodes {
+				if other.name == m.SenderAddr {
+					continue
+				}
+				y := m
+				y.Signature = ed25519.Sign(other.kp.Priv, m.Data)
+				res := r.feedOp(c, obs, y, fmt.Sprintf("mut:after-reinit-signed-by-%d", j), "trymsg")
+				r.st.Mutated++
+				if res.outcome == "ok" && res.before != res.after {
+					r.mon(fmt.Sprintf("C10 only_own_key: after the re-initialisation a %s in the name of %s, signed with the key of %s, was accepted and changed the node state", m.Event, m.SenderAddr, other.name))
+				}
+			}
 			r.feed(c, obs, m, "after-reinit")
 		}
 	}
@@ -1200,6 +1223,15 @@ func (r *nodeRun) reinitObserved(c *cluster, obs *vnode, round string, keyless i
 			r.mon("harness: GetAdaptedReDKG: " + err.Error())
 			return
 		}
+	}
+	// the participant list of the file in another order than the opening proposal had (each entry still carries its own name
+	// and keys): keys belong to names, not to positions
+	if r.st.Scenarios%2 == 1 && len(re.Participants) > 1 {
+		ps := re.Participants
+		for i, j := 0, len(ps)-1; i < j; i, j = i+1, j-1 {
+			ps[i], ps[j] = ps[j], ps[i]
+		}
+		r.st.ReorderedReinits++
 	}
 	payload, _ := json.Marshal(re)
 	now := time.Now()
